@@ -26,6 +26,8 @@ CONSTANT Configs   \* set of configuration records the model is checked for
 \*   PreAuth      greeting is PREAUTH
 \*   HasTLSConfig Options.TLSConfig # nil (STARTTLS possible)
 \*   CapMove / CapNamespace / CapUnauth: capability advertised and session implements it
+\*   Sasl         the session brings its own SASL mechanisms (SessionSASL: PLAIN and XTEST); AUTHENTICATE then
+\*                reaches the backend through Authenticate(mech) instead of Login
 VARIABLE cfg
 TLS == cfg.TLS
 InsecureAuth == cfg.InsecureAuth
@@ -34,11 +36,14 @@ HasTLSConfig == cfg.HasTLSConfig
 CapMove == cfg.CapMove
 CapNamespace == cfg.CapNamespace
 CapUnauth == cfg.CapUnauth
+Sasl == cfg.Sasl
 
-AllConfigs == [TLS : BOOLEAN, InsecureAuth : BOOLEAN, PreAuth : BOOLEAN, HasTLSConfig : BOOLEAN,
-               CapMove : BOOLEAN, CapNamespace : BOOLEAN, CapUnauth : BOOLEAN]
+AllConfigs == {c \in [TLS : BOOLEAN, InsecureAuth : BOOLEAN, PreAuth : BOOLEAN, HasTLSConfig : BOOLEAN,
+                       CapMove : BOOLEAN, CapNamespace : BOOLEAN, CapUnauth : BOOLEAN, Sasl : BOOLEAN] :
+                 \* (the SASL session of the harness implements all optional interfaces or none)
+                 c.Sasl => (c.CapMove = c.CapNamespace /\ c.CapNamespace = c.CapUnauth)}
 \* the product named by the property, optional capabilities all on or all off
-CoreConfigs == {c \in AllConfigs : c.CapMove = c.CapNamespace /\ c.CapNamespace = c.CapUnauth}
+CoreConfigs == {c \in AllConfigs : c.CapMove = c.CapNamespace /\ c.CapNamespace = c.CapUnauth /\ c.Sasl = c.CapMove}
 
 VARIABLES state,     \* "notauth" | "auth" | "selected" | "logout"
           tls,       \* BOOLEAN: the transport is encrypted now
@@ -57,7 +62,8 @@ NoArgCmds  == {"NOOP", "CHECK", "LOGOUT", "CAPABILITY", "STARTTLS", "UNAUTHENTIC
 AnyState   == {"NOOP", "CHECK", "LOGOUT", "CAPABILITY"}
 \* "STARTTLS-PIPED": the STARTTLS line with further commands (LOGIN, SELECT, ...) appended in the same
 \* segment, i.e. plaintext that reaches the server before the TLS handshake (C17 / RFC 3207 section 6)
-NotAuthCmds == {"STARTTLS", "STARTTLS-PIPED", "LOGIN", "AUTHENTICATE", "AUTHENTICATE-CANCEL"}
+\* "AUTHENTICATE-X": AUTHENTICATE with a mechanism other than PLAIN (XTEST) and an initial response
+NotAuthCmds == {"STARTTLS", "STARTTLS-PIPED", "LOGIN", "AUTHENTICATE", "AUTHENTICATE-CANCEL", "AUTHENTICATE-X"}
 AuthCmds   == {"ENABLE", "CREATE", "DELETE", "RENAME", "SUBSCRIBE", "UNSUBSCRIBE", "STATUS",
                "LIST", "LSUB", "NAMESPACE", "IDLE", "SELECT", "EXAMINE", "APPEND",
                "UNAUTHENTICATE"}
@@ -67,7 +73,7 @@ SelCmds    == {"CLOSE", "UNSELECT", "EXPUNGE", "UID EXPUNGE", "FETCH", "UID FETC
 Cmds == AnyState \cup NotAuthCmds \cup AuthCmds \cup SelCmds \cup {"XUNKNOWN"}
 
 \* one representative per command family (used for depth-bounded enumeration)
-FamilyCmds == {"NOOP", "LOGOUT", "STARTTLS", "STARTTLS-PIPED", "LOGIN", "AUTHENTICATE-CANCEL", "UNAUTHENTICATE",
+FamilyCmds == {"NOOP", "LOGOUT", "STARTTLS", "STARTTLS-PIPED", "LOGIN", "AUTHENTICATE-CANCEL", "AUTHENTICATE-X", "UNAUTHENTICATE",
                "ENABLE", "STATUS", "IDLE", "SELECT", "APPEND", "CLOSE", "UNSELECT", "UID FETCH",
                "MOVE", "XUNKNOWN"}
 
@@ -95,7 +101,7 @@ Method(c) ==
 
 \* RFC 9051 section 6: in which states may a backend operation be reached?
 Permitted(m, st) ==
-  CASE m = "Login" -> st = "notauth"
+  CASE m \in {"Login", "Authenticate"} -> st = "notauth"
     [] m \in {"Create", "Delete", "Rename", "Subscribe", "Unsubscribe", "Status", "List",
               "Namespace", "Idle", "Append", "Select", "Unauthenticate"} -> st \in {"auth", "selected"}
     [] m \in {"Unselect", "Expunge", "Fetch", "Store", "Copy", "Move", "Search"} -> st = "selected"
@@ -188,18 +194,30 @@ StartTLSPiped ==
   /\ Result("logout", tls, enabled, TRUE, <<>>, Out(OK, FALSE, 0, FALSE))
 
 \* LOGIN u p   and   AUTHENTICATE PLAIN <initial response>
+\* (a session with its own SASL mechanisms is asked through Authenticate, any other through Login)
+AuthMethod(c) == IF c = "LOGIN" \/ ~Sasl THEN "Login" ELSE "Authenticate"
 Login(c, f) ==
   /\ Alive /\ f \in 0..1 /\ c \in {"LOGIN", "AUTHENTICATE"}
   /\ IF ~CanAuth THEN Refuse
-     ELSE Result(IF f = 0 THEN "auth" ELSE state, tls, enabled, closed, <<Call("Login")>>,
+     ELSE Result(IF f = 0 THEN "auth" ELSE state, tls, enabled, closed, <<Call(AuthMethod(c))>>,
+                 Out(IF f = 0 THEN OK ELSE NOTOK, FALSE, 0, FALSE))
+
+\* AUTHENTICATE XTEST <initial response>: only a session with its own mechanisms knows it; the willingness to
+\* authenticate at all does not depend on the mechanism
+AuthX(f) ==
+  /\ Alive /\ f \in 0..1
+  /\ IF ~CanAuth \/ ~Sasl THEN Refuse
+     ELSE Result(IF f = 0 THEN "auth" ELSE state, tls, enabled, closed, <<Call("Authenticate")>>,
                  Out(IF f = 0 THEN OK ELSE NOTOK, FALSE, 0, FALSE))
 
 \* AUTHENTICATE PLAIN without initial response, client cancels with "*":
-\* a continuation request is sent only if the server is willing to authenticate.
-AuthCancel ==
-  /\ Alive
+\* a continuation request is sent only if the server is willing to authenticate (and, with a session that has
+\* its own mechanisms, once that session has accepted the mechanism).
+AuthCancel(f) ==
+  /\ Alive /\ f \in 0..1
   /\ IF ~CanAuth THEN Refuse
-     ELSE Result(state, tls, enabled, closed, <<>>, Out(NOTOK, FALSE, 1, FALSE))
+     ELSE IF ~Sasl THEN f = 0 /\ Result(state, tls, enabled, closed, <<>>, Out(NOTOK, FALSE, 1, FALSE))
+     ELSE Result(state, tls, enabled, closed, <<Call("Authenticate")>>, Out(NOTOK, FALSE, IF f = 0 THEN 1 ELSE 0, FALSE))
 
 Unauthenticate(f) ==
   /\ Alive /\ f \in 0..1
@@ -262,7 +280,8 @@ Good(c, f) ==
   \/ f = 0 /\ c = "STARTTLS" /\ StartTLS
   \/ f = 0 /\ c = "STARTTLS-PIPED" /\ StartTLSPiped
   \/ Login(c, f)
-  \/ f = 0 /\ c = "AUTHENTICATE-CANCEL" /\ AuthCancel
+  \/ c = "AUTHENTICATE-CANCEL" /\ AuthCancel(f)
+  \/ c = "AUTHENTICATE-X" /\ AuthX(f)
   \/ c = "UNAUTHENTICATE" /\ Unauthenticate(f)
   \/ f = 0 /\ c = "ENABLE" /\ Enable("IMAP4rev2")
   \/ c = "IDLE" /\ Idle(f)
@@ -284,7 +303,7 @@ BackendOnlyWhenPermitted ==
 
 \* Credentials reach the backend only over TLS unless InsecureAuth.
 CredentialsOnlyWhenSecure ==
-  \A i \in 1..Len(calls) : calls[i].m = "Login" => (tls \/ InsecureAuth)
+  \A i \in 1..Len(calls) : calls[i].m \in {"Login", "Authenticate"} => (tls \/ InsecureAuth)
 
 \* RFC 9051 section 3 state diagram.
 RFCEdges ==
